@@ -547,4 +547,73 @@ Proof.
   apply andb_true_iff in Hwb as [C1 C2]. apply IH; auto. now apply step_b.
 Qed.
 
+Lemma init_b W kinds : (1 <= L)%Z -> 1 <= W <= 512 -> FInv (length kinds) (init W kinds).
+Proof.
+  intros HL HW. split; [now apply init_inv|]. split; [apply init_r|]. split; [|split].
+  - unfold WBl, init. cbn. apply Forall_map, Forall_forall. intros k _ H. exact H.
+  - intros _ _ _ t l _. unfold init. cbn. rewrite nth_error_map. destruct (nth_error kinds t); [|discriminate].
+    cbn. intros E; injection E as <-. now left.
+  - intros _ H. now destruct H.
+Qed.
+
+Theorem reachable_b W kinds os :
+  (1 <= L)%Z -> 1 <= W <= 512 ->
+  forallb nf_op os = true -> forallb (tok_ok (length kinds)) os = true -> forallb nwb_op os = true ->
+  FInv (length kinds) (run L (init W kinds) os).
+Proof. intros HL HW Hnf Htok Hwb. apply run_b; auto. now apply init_b. Qed.
+
+Lemma RInv_armed st l d :
+  RInv st -> In l (lsts st) -> l_to l = Some d ->
+  exists t, (d <= now st + 500)%N /\ ptimeout st = Some t /\ (t <= 510)%N.
+Proof.
+  intros (_ & H2 & H3) Hin Hd. rewrite Forall_forall in H3. destruct (H3 l Hin) as (_ & B & _).
+  destruct (B d Hd) as (_ & B2 & B3). destruct (ptimeout st) as [t|] eqn:Ept; [|congruence].
+  exists t. repeat split; auto.
+Qed.
+
+(* ---------- C05_no_strand ---------- *)
+Lemma no_strand_inv nl st :
+  FInv nl st ->
+  err st = None /\
+  (stopped st = false ->
+   (wq st <> [] -> wpend st = true) /\
+   forall tok l, nth_error (lsts st) tok = Some l ->
+     l_linked l = true /\
+     (l_reg l = true \/
+      (exists d t, l_to l = Some d /\ (d <= now st + 500)%N /\ ptimeout st = Some t /\ (t <= 510)%N) \/
+      (paused st = true /\ l_to l = None)) /\
+     (paused st = false -> available (av st) = true -> l_backlog l <> [] -> l_inject l = [] ->
+        (l_reg l = true /\ l_edge l = true) \/
+        (exists d t, l_to l = Some d /\ (d <= now st + 500)%N /\ ptimeout st = Some t /\ (t <= 510)%N))).
+Proof.
+  intros (HI & HR & HWB & HB & HQ). split; [apply HI|]. intros Hs. split; [now apply HQ|].
+  intros tok l Hl. pose proof (nth_error_In _ _ Hl) as Hin.
+  pose proof HR as (_ & _ & H3). rewrite Forall_forall in H3. destruct (H3 l Hin) as (A & B & C & D).
+  split; [exact A|]. split.
+  - destruct (l_to l) as [d|] eqn:Et.
+    + right; left. destruct (RInv_armed st l d HR Hin Et) as (t & T1 & T2 & T3). exists d, t. auto.
+    + destruct (paused st) eqn:Hp; [right; right; auto|left; now apply D].
+  - intros Hp Ha Hb Hi. destruct (HB Hs Hp Ha tok l (fun x => x) Hl) as [H|[H|[(_ & Hr & He)|H]]]; try contradiction.
+    + left. auto.
+    + right. destruct (l_to l) as [d|] eqn:Et; [|congruence].
+      destruct (RInv_armed st l d HR Hin Et) as (t & T1 & T2 & T3). exists d, t. auto.
+Qed.
+
+Lemma no_strand W kinds os :
+  (1 <= L)%Z -> 1 <= W <= 512 ->
+  forallb nf_op os = true -> forallb (tok_ok (length kinds)) os = true -> forallb nwb_op os = true ->
+  let st := run L (init W kinds) os in
+  err st = None /\
+  (stopped st = false ->
+   (wq st <> [] -> wpend st = true) /\
+   forall tok l, nth_error (lsts st) tok = Some l ->
+     l_linked l = true /\
+     (l_reg l = true \/
+      (exists d t, l_to l = Some d /\ (d <= now st + 500)%N /\ ptimeout st = Some t /\ (t <= 510)%N) \/
+      (paused st = true /\ l_to l = None)) /\
+     (paused st = false -> available (av st) = true -> l_backlog l <> [] -> l_inject l = [] ->
+        (l_reg l = true /\ l_edge l = true) \/
+        (exists d t, l_to l = Some d /\ (d <= now st + 500)%N /\ ptimeout st = Some t /\ (t <= 510)%N))).
+Proof. intros HL HW Hnf Htok Hwb st. eapply no_strand_inv. now apply reachable_b. Qed.
+
 End B.
